@@ -28,7 +28,7 @@ theorem one_location (n : Nat) (max : Int) (hm : 0 ≤ max) (acts : List Act) (s
 
 /-- the hypotheses of `one_location` are met on a non-trivial run: activate, resume, pick, pause while pending -/
 example : ((run (init 2 1) [.setActive 1 true, .setPaused 1 false, .objectHandler 1, .sched 1 5 {},
-    .setPaused 1 true, .objectHandler 1, .helperGuard 1]).map
+    .setPaused 1 true, .objectHandler 1, .rearm 1 5 6, .helperGuard 1]).map
       fun s => ((s.chk 1).inIdle, (s.chk 1).inPending, (s.chk 1).synced, (s.chk 1).hx)) = some (false, false, true, 1) := by
   decide
 
@@ -59,14 +59,14 @@ theorem single_flight (n : Nat) (max : Int) (acts : List Act) (s : St)
 
 /-- asynchronous execution: the helper has long finished, the checkable is idle again, and the process still holds the flag -/
 example : ((run (init 1 2) [.setActive 0 true, .setPaused 0 false, .objectHandler 0, .sched 0 0 {},
-    .helperGuard 0, .spawn 0, .pluginInc 0, .helperDec 0, .helperFinish 0, .setNextCheck 0 0, .nextCheckChanged 0,
-    .sched 0 0 {}, .helperGuard 0]).map
+    .rearm 0 0 1, .helperGuard 0, .spawn 0, .pluginInc 0, .helperDec 0, .helperFinish 0, .setNextCheck 0 0, .nextCheckChanged 0,
+    .sched 0 0 {}, .rearm 0 0 1, .helperGuard 0]).map
       fun s => ((s.chk 0).procs, (s.chk 0).running, (s.chk 0).hr, (s.chk 0).inPending, s.counter)) = some (1, true, 1, true, 2) := by
   decide
 
 /-- a passive result during an execution changes nothing: the forced second dispatch finds the guard busy and starts nothing -/
-example : ((run (init 1 4) [.setActive 0 true, .setPaused 0 false, .objectHandler 0, .sched 0 0 {}, .helperGuard 0, .spawn 0,
-    .passiveResult 0, .pluginInc 0, .helperDec 0, .helperFinish 0, .force 0, .sched 0 0 {}, .helperGuard 0]).map
+example : ((run (init 1 4) [.setActive 0 true, .setPaused 0 false, .objectHandler 0, .sched 0 0 {}, .rearm 0 0 1, .helperGuard 0, .spawn 0,
+    .passiveResult 0, .pluginInc 0, .helperDec 0, .helperFinish 0, .force 0, .sched 0 1 {}, .rearm 0 1 2, .helperGuard 0]).map
       fun s => ((s.chk 0).hx, (s.chk 0).procs, (s.chk 0).running, (s.chk 0).hr)) = some (0, 1, true, 1) := by decide
 
 /-- F-C04c, kept as documentation of the pre-fix code (not a transition of the model any more): before 1c45f06 a passive result
@@ -97,7 +97,7 @@ theorem concurrency_bound (n : Nat) (max : Int) (hm : 0 ≤ max) (acts : List Ac
   exact ⟨by omega, by omega, h4, hinv.2.1⟩
 
 example : ((run (init 2 1) [.setActive 0 true, .setPaused 0 false, .objectHandler 0, .setActive 1 true,
-    .setPaused 1 false, .objectHandler 1, .sched 0 0 {}, .helperGuard 0]).map
+    .setPaused 1 false, .objectHandler 1, .sched 0 0 {}, .rearm 0 0 1, .helperGuard 0]).map
       fun s => (s.executing, s.counter, decide (schedEnabled s 1 0))) = some (1, 1, false) := by
   decide
 
@@ -105,7 +105,7 @@ example : ((run (init 2 1) [.setActive 0 true, .setPaused 0 false, .objectHandle
     the helper's `-1` one check holds two units (here: max = 1, counter = 2, one process running) -/
 theorem counter_exceeds_max_with_plugins :
     ((run (init 1 1) [.setActive 0 true, .setPaused 0 false, .objectHandler 0, .sched 0 0 {},
-        .helperGuard 0, .spawn 0, .pluginInc 0]).map fun s => (s.counter, s.max, s.executing)) = some (2, 1, 1) := by
+        .rearm 0 0 1, .helperGuard 0, .spawn 0, .pluginInc 0]).map fun s => (s.counter, s.max, s.executing)) = some (2, 1, 1) := by
   decide
 
 /-- **next_check_window.**  `Checkable::UpdateNextCheck` (exact arithmetic): for every `now`, every scheduling
@@ -128,7 +128,7 @@ theorem forced_runs (s : St) (c : Nat) (now : Int) (i : SkipIn)
     (hen : schedEnabled s c now) (hf : (s.chk c).forced = true) :
     ∃ s', step s (.sched c now i) = some s' ∧ (s'.chk c).inPending = true ∧ (s'.chk c).inIdle = false ∧
       (s'.chk c).forced = false ∧ (s'.chk c).hq = (s.chk c).hq + 1 ∧ s'.counter = s.counter + 1 := by
-  refine ⟨{ s.upd c (s.chk c).pick with counter := s.counter + 1 }, ?_, ?_⟩
+  refine ⟨{ s.upd c ((s.chk c).pick now) with counter := s.counter + 1 }, ?_, ?_⟩
   · simp [step, hen, Chk.skipsIn, Chk.skips, hf]
   · simp [St.upd, Chk.pick]
 
@@ -155,7 +155,7 @@ theorem eligible_runs (s : St) (c : Nat) (now : Int) (i : SkipIn) (hen : schedEn
     obtain ⟨a, b, d, e, g, h⟩ := i
     cases (s.chk c).forced <;> cases a <;> cases b <;> cases d <;> cases e <;> cases g <;> cases h <;> rfl
   cases hsk : Chk.skipsIn (s.chk c).forced i
-  · refine ⟨{ s.upd c (s.chk c).pick with counter := s.counter + 1 }, by simp [step, hen, hsk], ?_, ?_⟩
+  · refine ⟨{ s.upd c ((s.chk c).pick now) with counter := s.counter + 1 }, by simp [step, hen, hsk], ?_, ?_⟩
     · intro _; simp [St.upd, Chk.pick]
     · intro ⟨hf, he⟩; rw [key, hf, he] at hsk; simp at hsk
   · refine ⟨s.upd c (s.chk c).skip, by simp [step, hen, hsk], ?_, ?_⟩
@@ -178,9 +178,9 @@ example : ((run (init 1 1) [.setActive 0 true, .setPaused 0 false, .objectHandle
 
 /-- **progress.**  No stuck state: whenever some checkable is idle and due and a slot is free, the scheduler's
     section is enabled for an idle checkable with the smallest key (which is due as well), whatever the
-    recorded facts.  (The model does not apply `UpdateNextCheck` itself — `skip` and `pick` keep `next_check`, the re-arming is a
-    separate `setNextCheck`/`nextCheckChanged` pair whose value the trace validation takes from the implementation and checks
-    against `next_check_window` — so this is absence of a stuck state, not liveness; real-time liveness is measured.) -/
+    recorded facts.  (`ExecuteCheck`'s early `UpdateNextCheck` is the transition `rearm`, the one of result processing / the skip path is
+    `ownResched`, each followed by its own `nextCheckChanged`; the scheduler thread's sequential order "skip, then UpdateNextCheck, then
+    look again" is not modelled — so this is absence of a stuck state, not liveness; real-time liveness is measured.) -/
 theorem progress (s : St) (now : Int) (c0 : Nat) (h0 : c0 < s.n) (hi : (s.chk c0).inIdle = true)
     (hdue : (s.chk c0).idleKey ≤ now) (hfree : s.counter < s.max) :
     ∃ c, schedEnabled s c now ∧ (s.chk c).idleKey ≤ (s.chk c0).idleKey ∧
@@ -245,8 +245,8 @@ theorem pending_has_helper (n : Nat) (max : Int) (hm : 0 ≤ max) (acts : List A
   intro ha; simp [ha, hni]
 
 /-- pending while two helpers are outstanding (dispatch, pause+resume while the command runs, second dispatch) -/
-example : ((run (init 1 4) [.setActive 0 true, .setPaused 0 false, .objectHandler 0, .sched 0 0 {}, .helperGuard 0,
-    .setPaused 0 true, .objectHandler 0, .setPaused 0 false, .objectHandler 0, .sched 0 0 {}]).map
+example : ((run (init 1 4) [.setActive 0 true, .setPaused 0 false, .objectHandler 0, .sched 0 0 {}, .rearm 0 0 1, .helperGuard 0,
+    .setPaused 0 true, .objectHandler 0, .setPaused 0 false, .objectHandler 0, .sched 0 1 {}]).map
       fun s => ((s.chk 0).inPending, (s.chk 0).helpers)) = some (true, 2) := by decide
 
 /-- **completion_always_possible.**  "Never dropped", as absence of a dead end: from EVERY reachable state — whatever pauses, resumes,
@@ -275,11 +275,11 @@ theorem completion_always_possible (n : Nat) (max : Int) (hm : 0 ≤ max) (acts 
   have := (hinv.2.1 hsy).1 hsc
   simpa [hnp] using this
 
-/-- two helpers outstanding (second dispatch after pause+resume during the first command), one command running: six more
+/-- two helpers outstanding (second dispatch after pause+resume during the first command), one command running: seven more
     actions of checkable 0 and it is settled and idle again -/
-example : ((run (init 1 4) ([.setActive 0 true, .setPaused 0 false, .objectHandler 0, .sched 0 0 {}, .helperGuard 0,
-    .setPaused 0 true, .objectHandler 0, .setPaused 0 false, .objectHandler 0, .sched 0 0 {}] ++
-    [.helperGuard 0, .result 0, .helperDec 0, .helperDec 0, .helperFinish 0, .helperFinish 0])).map
+example : ((run (init 1 4) ([.setActive 0 true, .setPaused 0 false, .objectHandler 0, .sched 0 0 {}, .rearm 0 0 1, .helperGuard 0,
+    .setPaused 0 true, .objectHandler 0, .setPaused 0 false, .objectHandler 0, .sched 0 1 {}] ++
+    [.rearm 0 1 2, .helperGuard 0, .result 0, .helperDec 0, .helperDec 0, .helperFinish 0, .helperFinish 0])).map
       fun s => ((s.chk 0).settled, (s.chk 0).inIdle, (s.chk 0).inPending, s.counter)) = some (true, true, false, 0) := by decide
 
 /-- **no_slot_leak.**  In every reachable state in which nothing is in flight — no helper between its dispatch and its final
@@ -291,7 +291,7 @@ theorem no_slot_leak (n : Nat) (max : Int) (hm : 0 ≤ max) (acts : List Act) (s
   settled_counter s (inv_run acts _ s (inv_init n max hm) hr) hq
 
 /-- settled again after an asynchronous execution whose checkable was paused while the process ran -/
-example : ((run (init 1 1) [.setActive 0 true, .setPaused 0 false, .objectHandler 0, .sched 0 0 {}, .helperGuard 0, .spawn 0,
+example : ((run (init 1 1) [.setActive 0 true, .setPaused 0 false, .objectHandler 0, .sched 0 0 {}, .rearm 0 0 1, .helperGuard 0, .spawn 0,
     .setPaused 0 true, .objectHandler 0, .procExit 0, .pluginInc 0, .helperDec 0, .helperFinish 0, .procResult 0]).map
       fun s => (s.settled, s.counter)) = some (true, 0) := by decide
 
@@ -319,24 +319,71 @@ theorem model_trace_meets_spec (n : Nat) (max : Int) (hm : 0 ≤ max) (acts : Li
 /-- the hypotheses are met by a non-trivial run (dispatch, execution, pause while pending, result, finish) and the trace
     it produces is not empty -/
 example : (traceOf (init 2 1) [.setActive 1 true, .setPaused 1 false, .objectHandler 1, .force 1,
-    .sched 1 5 { own := false }, .helperGuard 1, .setPaused 1 true, .objectHandler 1, .result 1, .helperDec 1,
+    .sched 1 5 { own := false }, .rearm 1 5 6, .nextCheckChanged 1, .helperGuard 1, .setPaused 1 true, .objectHandler 1, .result 1, .helperDec 1,
     .helperFinish 1]) = some [.opBegin 1, .opBegin 1, .authority 1 true, .loc 1 true false, .slot 0 1,
-      .decision 1 true false false, .loc 1 false true, .execStart 1, .opBegin 1, .authority 1 false, .loc 1 false false,
-      .execEnd 1, .loc 1 false false, .quiescent 0 false false false 0 0, .quiescent 1 false false false 0 0,
+      .decision 1 true false false, .loc 1 false true, .loc 1 false true, .execStart 1, .opBegin 1, .authority 1 false, .loc 1 false false,
+      .execEnd 1, .rearmed 1 5 6, .loc 1 false false, .quiescent 0 false false false 0 0, .quiescent 1 false false false 0 6,
       .quiescentCounter 0] := by decide
 
 /-- … and by an asynchronous one: the process outlives its helper, exits, and only then delivers its result -/
 example : (traceOf (init 1 1) [.setActive 0 true, .setPaused 0 false, .objectHandler 0, .sched 0 0 {},
-    .helperGuard 0, .spawn 0, .pluginInc 0, .helperDec 0, .helperFinish 0, .procExit 0, .procResult 0]).bind
-      (fun tr => some tr.length) = some 12 := by decide
+    .rearm 0 0 1, .nextCheckChanged 0, .helperGuard 0, .spawn 0, .pluginInc 0, .helperDec 0, .helperFinish 0, .procExit 0, .procResult 0]).bind
+      (fun tr => some tr.length) = some 14 := by decide
 
 /-- … and by the run of F-C04c: a passive result while the process runs, then a forced dispatch — the trace passes (no second
     `execStart`) -/
-example : (traceOf (init 1 4) [.setActive 0 true, .setPaused 0 false, .objectHandler 0, .sched 0 0 {}, .helperGuard 0, .spawn 0,
-    .passiveResult 0, .pluginInc 0, .helperDec 0, .helperFinish 0, .force 0, .sched 0 0 {}, .helperGuard 0]).bind
+example : (traceOf (init 1 4) [.setActive 0 true, .setPaused 0 false, .objectHandler 0, .sched 0 0 {}, .rearm 0 0 1, .helperGuard 0, .spawn 0,
+    .passiveResult 0, .pluginInc 0, .helperDec 0, .helperFinish 0, .force 0, .sched 0 1 {}, .rearm 0 1 2, .helperGuard 0]).bind
       (fun tr => some (specTrace { max := 4 } tr, tr.count (.execStart 0))) = some (none, 1) := by decide
 
+/-- **rearm_after_dispatch.**  The clause `not_rearmed` ("after each execution the next check time lies in the future", evaluated on the
+    implementation's own `next_check` every time an execution attempt has come back - result delivered, process spawned, or single-flight
+    guard found busy) is what `Checkable::ExecuteCheck`'s unconditional early `UpdateNextCheck()` (checkable-check.cpp:578-584, before the
+    guard) guarantees: the helper reads the clock no earlier than the scheduler that dispatched it (`d ≤ now`), and `UpdateNextCheck`
+    yields a value after the clock it read (`now < v`, theorem `next_check_window` for every offset and interval > 0); every later write
+    by the scheduler's machinery (result processing, skip path) is of the same kind.  (The model's transitions `rearm` / `ownResched`
+    carry exactly these two facts as their enabling conditions.) -/
+theorem rearm_after_dispatch (sp : SpecSt) (c : Nat) (d now v : Int) (hmono : d ≤ now) (hfut : now < v) :
+    specStep sp (.rearmed c d v) = none := by
+  have : d < v := by omega
+  simp [specStep, this]
+
+/-- **rearmed_when_attempt_returns.**  For every interleaving: in every reachable state in which an execution attempt of `c` has passed
+    `ExecuteCheck`'s early `UpdateNextCheck()` and is still outstanding (before the guard, executing, spawning, returned, or before its
+    final section) and no outside party (`setNextCheck`: API action, external command, cluster event) has written `next_check` since the
+    earliest outstanding dispatch, `next_check` lies after that dispatch - whatever pauses, resumes, second dispatches, busy guards,
+    passive results and completions happened meanwhile.  In particular a helper that finds the single-flight guard busy comes back with
+    the checkable re-armed: the scheduler does not take it again at once.  (`model_trace_meets_spec` carries this as the `rearmed`
+    observation at every `helperDec`.) -/
+theorem rearmed_when_attempt_returns (n : Nat) (max : Int) (acts : List Act) (s : St)
+    (hr : run (init n max) acts = some s) (c : Nat) (hf : (s.chk c).foreign = false)
+    (hh : 0 < (s.chk c).hu + (s.chk c).hx + (s.chk c).hs + (s.chk c).hr + (s.chk c).hd) :
+    (s.chk c).dispatchedAt < (s.chk c).nextCheck :=
+  rearm_run acts _ s (rearm_init n max) hr c hf hh
+
+/-- the hypotheses are met while a second attempt (process of the first still running) has found the guard busy and returned -/
+example : ((run (init 1 4) [.setActive 0 true, .setPaused 0 false, .objectHandler 0, .sched 0 0 {}, .rearm 0 2 32, .helperGuard 0, .spawn 0,
+    .pluginInc 0, .helperDec 0, .helperFinish 0, .ownResched 0 3 4, .nextCheckChanged 0, .sched 0 7 {}, .rearm 0 8 38, .helperGuard 0]).map
+      fun s => ((s.chk 0).foreign, (s.chk 0).hr, (s.chk 0).procs, (s.chk 0).dispatchedAt, (s.chk 0).nextCheck)) = some (false, 1, 1, 7, 38) := by
+  decide
+
+/-- the order matters: a helper cannot reach the guard before it has re-armed the checkable (the mutation "re-arm only after a successful
+    guard" is not a behaviour of the model) -/
+example : (run (init 1 4) [.setActive 0 true, .setPaused 0 false, .objectHandler 0, .sched 0 0 {}, .helperGuard 0]).isNone = true := by decide
+
+/-- … with the exact arithmetic of `UpdateNextCheck`: whatever offset and interval > 0, the value it computes from a clock reading not
+    before the dispatch lies after the dispatch -/
+theorem update_next_check_after_dispatch (d now off interval : Rat) (hi : 0 < interval) (hmono : d ≤ now) :
+    d < updateNextCheck now off interval := by
+  have := (next_check_window now off interval hi).1
+  grind
+
+example : specStep { max := 1 } (.rearmed 0 1000 1030) = none := by decide
+
 /-! ### the specification predicate is not vacuous -/
+
+example : specTrace { max := 1 } [.rearmed 0 10 10] = some .not_rearmed := by decide
+example : specTrace { max := 1 } [.rearmed 0 10 11] = none := by decide
 
 example : specTrace { max := 2 } [.execStart 3, .loc 3 false true, .execStart 3] = some .single_flight := by decide
 example : specTrace { max := 1 } [.execStart 3, .execStart 4] = some .concurrency_bound := by decide
